@@ -97,7 +97,12 @@ func runP(c *Ctx, rule string, specs []entrySpec, minFuncs, minPCIs int) {
 				if len(facts) > 12 {
 					facts = facts[:12]
 				}
+				cur := p
+				c.premiseCheck = func(o *Obligation, premises []string) (bool, string) {
+					return pe.provePremises(cur, premises)
+				}
 				c.Fail(rule, key, posOfInstr(p.ins), p.kind+" site not guarded on every path: "+why, facts...)
+				c.premiseCheck = nil
 			}
 		}
 	}
@@ -435,4 +440,73 @@ var codecEntries = []entrySpec{
 func rulePCodec(c *Ctx) {
 	pEngine(c)
 	runP(c, "P-codec", codecEntries, 15, 40)
+}
+
+// provePremises: each premise "<term> >= <int>" (term as printed by descVN) must be provable at the site.
+func (pe *PEngine) provePremises(p *pci, premises []string) (bool, string) {
+	pf := pe.pf(p.fn)
+	for _, pr := range premises {
+		parts := strings.Split(pr, ">=")
+		if len(parts) != 2 {
+			return false, "unparseable premise " + pr
+		}
+		want := strings.TrimSpace(parts[0])
+		var k int64
+		if _, err := fmt.Sscanf(strings.TrimSpace(parts[1]), "%d", &k); err != nil {
+			return false, "unparseable premise " + pr
+		}
+		var atom *vn
+		var keys []string
+		for key := range pf.byKey {
+			keys = append(keys, key)
+		}
+		sort.Strings(keys)
+		for _, key := range keys {
+			n := pf.byKey[key]
+			if isIntType(n.typ) && descVN(n, 0) == want {
+				atom = n
+				break
+			}
+		}
+		if atom == nil {
+			return false, "premise term " + want + " does not occur in " + funcName(p.fn)
+		}
+		if !pf.proveAt(p.ins.Block(), pgoal{l: pf.linOf(atom).addConst(-k)}, nil, 0) {
+			return false, "cannot prove " + pr + " at the site"
+		}
+	}
+	return true, ""
+}
+
+// CONV (C05/C07): narrowing or sign-changing integer conversions in the interpreter preserve
+// the value (shown from ranges and guards) or are listed with their argument.
+func ruleConv(c *Ctx) {
+	pe := configureInterpP(c)
+	pe.EnumConv = true
+	defer func() { pe.EnumConv = false }()
+	entries := resolveEntries(c, "CONV", []entrySpec{{"bscript/interpreter", "*engine", "Execute"}})
+	n := 0
+	for _, fn := range pe.reachable(entries) {
+		if pkgPathOf(fn) != modPath+"/bscript/interpreter" {
+			continue
+		}
+		for _, p := range pe.enumerate(fn, false) {
+			if p.kind != "conv" {
+				continue
+			}
+			n++
+			p.key = strings.Replace(p.key, "conv/", "", 1)
+			ok, facts, why := pe.discharge(p)
+			if ok {
+				c.OK("CONV", p.key, p.ins.Pos(), "conversion preserves the value on every path")
+			} else {
+				if len(facts) > 8 {
+					facts = facts[:8]
+				}
+				c.Fail("CONV", p.key, posOfInstr(p.ins), "integer conversion may change the value (wrap/truncate): "+why, facts...)
+			}
+		}
+	}
+	c.Covered["CONV:conversions_needing_proof"] = n
+	c.MinInstances("CONV", n, 8)
 }
